@@ -111,6 +111,18 @@ CLAIMED['C02'] = dict(
     note='Trusts annotation-driven receiver typing (untyped receivers count only for the distinctive field names).',
     ref='DESIGN.md section 3, C02')
 
+CLAIMED['C03'] = dict(
+    technique='table extraction compared with the running interpreter (builtins, ast), sibling comparison, who-may-write census',
+    text='Static, narrow: the builtin exception table covers every BaseException subclass of the interpreter (R03.1); decorator and '
+         'old-style wrapping map classmethod/staticmethod to the same kinds, sync/async function visitors differ only in is_async, '
+         'definitions nested in functions are skipped alike (R03.2); the control-flow block table equals the statement classes of the '
+         'interpreter that own a body (R03.3); Documentable.docstring is only assigned cleaned, live or empty values (R03.4); the '
+         '__main__ guard is recognised by a single == only (R03.5); an existing Function is re-entered only for overloads (R03.6). '
+         'Decides these tables and shape facts only; the differential statement against what CPython binds is not decided.',
+    note='Oracle for the language: the interpreter running the check (builtins, ast). The body of the property needs execution against '
+         'CPython and is outside static reach (DESIGN.md section 5).',
+    ref='DESIGN.md section 3, C03')
+
 NOT_APPLICABLE = {
     'C04': 'relation between expandName results and the interpreter import system over all projects: value computations, no clause visible in the shape of the code (DESIGN.md section 5)',
     'C06': 'quantifies over processing schedules; name resolution during the AST walk is order sensitive by design, no structural bound (DESIGN.md section 5); the one structural fact (post-processing after the drain loop) is checked under C05',
